@@ -25,7 +25,8 @@ class B:
         self.n = 0
 
     # ---- generic
-    def mk(self, ty, **kw):
+    def mk(self, _ty, **kw):
+        ty = _ty
         names = self.e.structs.get(ty)
         if names is None:
             raise Unsupported('builder: unknown struct ' + ty)
